@@ -31,7 +31,7 @@ HasRes(ev, f) == HasObs(ev, "res") /\ f \in DOMAIN ev.obs.res
 \* the callback events of this call: logged if any callback is registered
 FiredOf(s, ev) ==
   IF HasRes(ev, "cblog") THEN ev.obs.res.cblog
-  ELSE ImplEvents(s, SlotsOf(s, ev.op))
+  ELSE ImplEvents(s, SlotsOfAll(s, ev.op))
 
 \* facets that disagree after applying ev.op in state s (ns = state after)
 BadFacets(s, ns, ev) ==
@@ -57,9 +57,9 @@ Explain(f, s, ns, ev) ==
     [] f = "errs"  -> [exp |-> [tbl |-> [t \in DOMAIN ns.tbl |-> Ids(ns.tbl[t].errs)],
                                 ecs |-> [e \in DOMAIN ns.ec |-> Ids(ns.ec[e].errs)]],
                        obs |-> ev.obs.errs]
-    [] f \in DOMAIN ev.obs -> [obs |-> ev.obs[f], hint |-> ExplainMore(ns, ev.op, f)]
-    [] f = "res.cblog" -> [obs |-> ev.obs.res.cblog, hint |-> ExplainCbLog(s, SlotsOf(s, ev.op), ev.obs.res.cblog)]
-    [] OTHER -> [obs |-> ev.obs.res, hint |-> ExplainMore(ns, ev.op, f)]
+    [] f \in DOMAIN ev.obs -> [obs |-> ev.obs[f], hint |-> ""]
+    [] f = "res.cblog" -> [obs |-> ev.obs.res.cblog, hint |-> ExplainCbLog(s, SlotsOfAll(s, ev.op), ev.obs.res.cblog)]
+    [] OTHER -> [obs |-> ev.obs.res, hint |-> ExplainMore(s, ns, ev.op, f, ev.obs.res)]
 
 Init == /\ st = InitState /\ l = 1 /\ scen = "" /\ poisoned = FALSE /\ nmis = 0
 
